@@ -1,3 +1,4 @@
+import Rp2.Proofs.Schedule2
 import Rp2.Proofs.Truncate
 import Rp2.Proofs.ComputeWindow
 import Rp2.Proofs.Prefix
@@ -52,4 +53,8 @@ theorem model_to_date_run_equals_truncated_run (asset : String) (acctName : Nat 
     ∃ cd', compute asset acctName period allowNeg none none sched (ins.filter (keepIn T)) (outs.filter (keepOut T)) (intras.filter (keepIntra T)) = .ok cd' ∧
       cd'.fracs = cd.fracs ∧ cd'.yearly = cd.yearly ∧ cd'.bals = cd.bals ∧ cd'.price = cd.price :=
   compute_to_date_eq_truncated asset acctName period allowNeg T sched ins outs intras cd hord hy hm hmb hmf h
+/-- entries of the method schedule that start after year `Y` have no influence on the method in force in any year up to `Y`: a run limited
+    by a to-date, and a configuration extended by later years, pair earlier disposals by the same methods -/
+theorem schedule_entries_after_the_to_date_are_irrelevant (sched : List (Int × Method)) (hnd : (sched.map (·.1)).Nodup) (Y y : Int) (hy : y ≤ Y) :
+    methodFor (sched.filter (fun p => decide (p.1 ≤ Y))) y = methodFor sched y := methodFor_drop_later sched hnd Y y hy
 end Rp2.C09
